@@ -174,6 +174,10 @@ func outcomeKey(o clientx.Outcome) string {
 
 func run(ci any, r *mon.Rec) {
 	c := ci.(*Case)
+	if clientx.TooManyHangs() {
+		r.NoteAdd("cases_skipped_after_3_hangs", 1)
+		return
+	}
 	rng := rand.New(rand.NewSource(c.Seed))
 	req, _, reply, err := c07.Build(rng, c.Client, c.FC, c.Size, c.Exc)
 	if err != nil {
@@ -195,8 +199,30 @@ func run(ci any, r *mon.Rec) {
 			opt.OnParse = func(d []byte) { h.add("parser", d, len(d), nil) }
 			plain.OnParse = func(d []byte) {}
 		}
-		with := clientx.Run(c.Client, req, script, opt)
-		without := clientx.Run(c.Client, req, script, plain)
+		// one third of the schedules run as the SECOND call on a client whose first call was an exception reply, a fault
+		// or a clean exchange: hooks must not see anything left over from the earlier call
+		var with, without clientx.Outcome
+		if i%3 == 2 {
+			warm, _ := mkSchedule(rng, reply, []string{"frag", "fault"}[rng.Intn(2)], E)
+			if rng.Intn(2) == 0 { // exception reply to the same request
+				ex := specref.Resp{FC: c.FC, Unit: reply[map[bool]int{true: 6, false: 0}[clientx.FramingOf(c.Client) == specref.TCP]], TID: uint16(reply[0])<<8 | uint16(reply[1]), Exception: true, ExCode: 2}.Encode(clientx.FramingOf(c.Client))
+				warm = xport.Script{Reply: ex, Steps: xport.Cuts(len(ex), nil, 0), Tail: "deadline"}
+			}
+			warm.CancelAtRead = 0
+			sw := clientx.NewSession(c.Client, opt)
+			sw.Do(req, warm)
+			h.mu.Lock()
+			h.evs = nil
+			h.mu.Unlock()
+			with = sw.Do(req, script)
+			sp := clientx.NewSession(c.Client, plain)
+			sp.Do(req, warm)
+			without = sp.Do(req, script)
+			desc += "+after-warmup"
+		} else {
+			with = clientx.Run(c.Client, req, script, opt)
+			without = clientx.Run(c.Client, req, script, plain)
+		}
 		r.Eval(1)
 		a := mon.Attrs{"client": clientx.KindName(c.Client), "rec_parser": c.RecPars}
 		ctx := fmt.Sprintf("%s client fc%d schedule %s steps %v tail %s", clientx.KindName(c.Client), c.FC, desc, script.Steps, script.Tail)
